@@ -86,11 +86,15 @@ type agent struct {
 	decodes int32
 	out     *bufio.Writer
 	outMu   sync.Mutex
+	closed  int32 // the observation is complete: what cleanup provokes is not reported
 	loopErr atomic.Value
 	loopEnd int32
 }
 
 func (a *agent) say(f string, args ...any) {
+	if atomic.LoadInt32(&a.closed) == 1 && strings.HasPrefix(f, "EMIT") {
+		return
+	}
 	a.outMu.Lock()
 	fmt.Fprintf(a.out, f+"\n", args...)
 	a.out.Flush()
@@ -643,13 +647,14 @@ func runnerMain(input, dir string) {
 	// survivors: give signals a moment to land, then look
 	pg := r.pidLines()
 	alive := groupAlive(pg)
-	for k := 0; k < 50 && alive; k++ {
+	for k := 0; k < 15 && alive; k++ {
 		time.Sleep(20 * time.Millisecond)
 		alive = groupAlive(pg)
 	}
 	sg, _ := os.ReadFile(filepath.Join(r.dir, "sigs"))
 	a.say("SIGS %s", strings.Join(strings.Fields(string(sg)), " "))
 	a.say("ALIVE %s", b01(alive))
+	atomic.StoreInt32(&a.closed, 1)
 	killGroups(pg)
 	a.say("DONE")
 }
